@@ -64,7 +64,7 @@ def run(chk):
                     _ = c1.sample(jax.random.PRNGKey(ci), (2,))
                     lp2, c2 = c1.condition(J(y2), J(xt), include_mean=inc)
                     own = c1.condition(J(y2)).gp     # conditioning at its own inputs works too
-                    _ = own.loc
+                    own_loc = np.asarray(own.loc)
                     lp2b = c1.log_probability(J(y2))
                 except Exception as e:  # noqa: BLE001
                     oracle_bad.append(dict(info, op="re-conditioning a conditioned process", observed=f"raised {type(e).__name__}: {str(e)[:100]}",
@@ -87,7 +87,11 @@ def run(chk):
                 sign, ld = np.linalg.slogdet(Kaa)
                 want_lp = -0.5 * (ya - ma) @ sol - 0.5 * ld - 0.5 * len(ya) * np.log(2 * np.pi)
                 jitter = float(np.sqrt(np.finfo(np.float64).eps))
-                checks = [("sequential mean", np.asarray(c2.loc), want_mean),
+                # second step at the child's OWN inputs x2 (per-step noise d2 from the first step): joint mean at x2
+                Ka2 = np.asarray(kern(J(xa), J(x2)))
+                want_own = Ka2.T @ sol + mfun(x2)
+                checks = [("sequential mean at the child's own inputs", own_loc, want_own),
+                          ("sequential mean", np.asarray(c2.loc), want_mean),
                           ("sequential covariance", np.asarray(c2.covariance) - jitter * np.eye(nt), want_cov),
                           ("total log probability", float(lp1) + float(lp2), want_lp),
                           ("child log_probability", float(lp2b), float(lp2))]
